@@ -92,6 +92,14 @@ def _ncch_traverse(r):
             _read_all(fh)
     with r.open_raw_section(NCCHSection.FullDecrypted) as fh:
         _read_all(fh)
+        # ... and in one call, the way a caller that trusts the declared size would (read() with no size)
+        try:
+            fh.seek(0)
+            fh.read()
+        except (MemoryError, RecursionError):
+            raise
+        except Exception:
+            pass
     if getattr(r, 'exefs', None):
         for name in list(r.exefs.entries):
             with r.exefs.open(name, normalize=False) as fh:
